@@ -216,3 +216,4 @@ PROP_INFO["X_WORLD"] = dict(X); SUITES["X_WORLD"] = {"quick": [{"family": "world
 # the world family; its pack mode also splits one attribute group over several UPDATEs
 SUITES["C08"]["quick"] += [{"family": "world", "mode": "pack", "share": 1}]
 SUITES["C08"]["thorough"] += [{"family": "world", "mode": "pack", "share": 1}, {"family": "world", "mode": "", "share": 1}]
+PROP_INFO["X_MON"] = dict(X); SUITES["X_MON"] = {"quick": [{"family": "mon", "mode": "", "share": 1}], "thorough": [{"family": "mon", "mode": "", "share": 1}]}
